@@ -197,3 +197,27 @@ def signed_terms(e, sign=1):
     if isinstance(e, ast.UnaryOp) and isinstance(e.op, ast.USub):
         return signed_terms(e.operand, -sign)
     return [(sign, e)]
+
+
+def ends_with_exit(stmts):
+    if not stmts:
+        return False
+    last = stmts[-1]
+    if isinstance(last, (ast.Return, ast.Raise, ast.Continue, ast.Break)):
+        return True
+    if isinstance(last, ast.If):
+        return ends_with_exit(last.body) and ends_with_exit(last.orelse)
+    return False
+
+
+def if_branches(if_node):
+    """(then-statements, else-statements) of an If, where a guard clause `if c: ...; return` followed by REST counts as
+    `if c: ... else: REST` (the two spellings are the same program)."""
+    orelse = if_node.orelse
+    if not orelse and ends_with_exit(if_node.body):
+        p = getattr(if_node, "_parent", None)
+        for f in ("body", "orelse", "finalbody"):
+            lst = getattr(p, f, None)
+            if isinstance(lst, list) and if_node in lst:
+                orelse = lst[lst.index(if_node) + 1:]
+    return if_node.body, orelse
